@@ -121,6 +121,24 @@ func c20run(c *fw.Ctx, idx int) {
 		g := tgen.New(r, tg(d))
 		g.MaxDepth = 3 + r.Intn(2)
 		src = g.Template(2 + r.Intn(8))
+		if r.Intn(4) == 0 {
+			// one control action dropped in at an action boundary: mostly a parse error; whatever the parser does accept
+			// is a "successfully parsed template" like any other and must be walkable
+			class = "generated+stray-control-action"
+			kw := []string{"catch", "catch e", "else", "end", "content", "else if x", "try", "if x", "range x", "block q()", "yield q() content", "return 1", "include \"x\""}[r.Intn(13)]
+			var cuts []int
+			for i := 0; i+len(d.L) <= len(src); i++ {
+				if strings.HasPrefix(src[i:], d.L) {
+					cuts = append(cuts, i)
+				}
+			}
+			cuts = append(cuts, len(src))
+			at := cuts[r.Intn(len(cuts))]
+			src = src[:at] + d.L + kw + d.R + src[at:]
+			if r.Intn(2) == 0 {
+				src += d.L + "end" + d.R
+			}
+		}
 	}
 	c.Begin(idx, map[string]interface{}{"class": class, "delims": d.Name, "source": src})
 	defer c.End()
@@ -138,6 +156,7 @@ func c20run(c *fw.Ctx, idx int) {
 		c.Count("rejected_by_parser", 1)
 		return
 	}
+	c.Count("accepted_"+class, 1)
 	want := map[uintptr]*c20node{}
 	c20collect(reflect.ValueOf(t.Root), "Root", false, want, 0)
 	visits := map[uintptr]int{}
@@ -214,7 +233,7 @@ func init() {
 	fw.Register(&fw.Property{
 		ID:        "C20",
 		Technique: "visit-multiset monitor: every node pointer found by an independent reflective traversal of the parsed tree must be handed to the visitor exactly once",
-		Rule: "26 directed templates (include, try/catch, return, '_' slots, slices with omitted bounds, unary forms, yield content with context, all range/if/set forms) and grammar-generated templates using every statement and expression kind (12 delimiter configurations); " +
+		Rule: "26 directed templates (include, try/catch, return, '_' slots, slices with omitted bounds, unary forms, yield content with context, all range/if/set forms) and grammar-generated templates using every statement and expression kind (14 delimiter configurations), a quarter of them with one stray control action (catch, else, end, content, try, ...) dropped in at an action boundary - judged like any other template if the parser accepts it; " +
 			"each accepted template is walked with a visitor that always descends via VisitorContext.Visit; oracle: no panic, no nil node, every statement/expression node visited exactly once, structural nodes (List, Pipe, Command, Set, catch, catch variable) at most once, visit count bounded; " +
 			"non-trivial = tree contains at least 5 node kinds; distinct by the set of node kinds present",
 		Assumptions: []string{"the reflective traversal over exported fields reaches every node of the tree"},
